@@ -481,15 +481,21 @@ impl Operator for FusedMatMul {
     fn run(&self, ctx: &OpRunContext) -> Result<OutputList, OpError> {
         let inputs = ctx.inputs();
         let a = inputs.require_as(0)?;
-        let b = inputs.require_as(1)?;
+        let b: TensorView<f32> = inputs.require_as(1)?;
         let packed_b = match inputs.get_prepacked(1) {
             Some(PrepackedInput::FloatBMatrix(pb)) => Some(pb),
             _ => None,
         };
 
-        let bias = inputs
-            .get_as::<NdTensorView<f32, 1>>(2)?
-            .map(|b| b.to_contiguous_in(ctx.pool()));
+        // A bias with one element is broadcast like `Add` would do.
+        let out_cols = b.size(b.ndim().saturating_sub(1));
+        let bias = inputs.get_as::<NdTensorView<f32, 1>>(2)?.map(|bias| {
+            if bias.size(0) == 1 && out_cols != 1 {
+                bias.broadcast([out_cols]).to_contiguous_in(ctx.pool())
+            } else {
+                bias.to_contiguous_in(ctx.pool())
+            }
+        });
         let bias = bias.as_ref().map(|b| BiasVector::Row(b.data()));
 
         matmul_fused(ctx.pool(), a, b, packed_b, bias, self.alpha).into_op_result()
